@@ -46,6 +46,7 @@ type part struct {
 	Env     []string          // extra env
 	OnlyT   bool              // part runs in the thorough tier only
 	NoSubst string            // passed to the instrumenter as -nosubst
+	Patch   [][3]string       // {file relative to /repo, old, new}: the CURRENT file with one textual seam replacement is put in its place through the overlay (old must occur exactly once)
 	ModRepl map[string]string // module-cache file (relative to GOMODCACHE) -> file under /verif to put in its place through the overlay
 }
 
@@ -469,6 +470,21 @@ func makeOverlay(work string, idx int, p part) (string, error) {
 		if err != nil {
 			return "", fmt.Errorf("harness set %s: %w", set, err)
 		}
+	}
+	for i, ps := range p.Patch {
+		src := filepath.Join(repo, ps[0])
+		b, err := os.ReadFile(src)
+		if err != nil {
+			return "", err
+		}
+		if strings.Count(string(b), ps[1]) != 1 {
+			return "", fmt.Errorf("seam patch for %s: %q occurs %d times in the current source (expected once)", ps[0], ps[1], strings.Count(string(b), ps[1]))
+		}
+		dst := filepath.Join(work, fmt.Sprintf("patch%d_%d_%s", idx, i, filepath.Base(ps[0])))
+		if err := os.WriteFile(dst, []byte(strings.Replace(string(b), ps[1], ps[2], 1)), 0o644); err != nil {
+			return "", err
+		}
+		replace[src] = dst
 	}
 	if len(p.ModRepl) > 0 {
 		out, err := exec.Command("go", "env", "GOMODCACHE").Output()
